@@ -475,7 +475,7 @@ package bbolt
 //@   ensures [mode] nflock > old(nflock) && lastflockop == (exclusive ? 6 : 5)     -- LOCK_NB|LOCK_EX = 4|2, LOCK_NB|LOCK_SH = 4|1
 //@   ensures [acquired] err == nil ==> flockok
 //@   modifies lastflockop, flockok, nflock
-//@   loop 0 invariant nflock >= old(nflock) && (nflock > old(nflock) ==> lastflockop == (exclusive ? 6 : 5))
+//@   loop 0 invariant flag == (exclusive ? 6 : 5) && nflock >= old(nflock) && (nflock > old(nflock) ==> lastflockop == (exclusive ? 6 : 5))
 
 //@ func funlock
 //@   returns (err)
@@ -486,7 +486,8 @@ package bbolt
 //@ func (*DB).close
 //@   returns (err)
 //@   props C17 C03
-//@   ensures [closed] !db.opened && db.file == nil
+//@   ensures [closed] !db.opened
+//@   ensures [file] old(db.opened) ==> db.file == nil
 //@   ensures [unlock] old(db.opened) && old(db.file) != nil && !db.readOnly ==> calls("funlock", db) == old(calls("funlock", db)) + 1 && lastflockop == 8
 //@   ensures [nounlock] !old(db.opened) || db.readOnly ==> calls("funlock", db) == old(calls("funlock", db))
 //@   ensures [filecount] old(db.opened) && old(db.file) != nil ==> calls("os.(*File).Close", old(db.file)) == old(calls("os.(*File).Close", db.file)) + 1
